@@ -150,6 +150,21 @@ def positions():
     pos.append(('Capture:named', "Capture({s}, 'x')", lambda L: '(?P<x>' + L + ')'))
     pos.append(('Group', 'Group({s})', lambda L: g(L)))
     pos.append(('Group:i', 'Group({s}, True)', lambda L: '(?i:' + L + ')'))
+    # nested class forms (a result of one class handed to another)
+    pos.append(('nested:Concat-Concat', "Concat(Concat({s}, %r), %r)" % (NEUTRAL, NEUTRAL), lambda L: g(L) + K + K))
+    pos.append(('nested:Concat-Concat1', "Concat(Concat({s}), %r)" % NEUTRAL, lambda L: g(L) + K))
+    pos.append(('nested:Either-Concat', "Either(Concat({s}, %r), %r)" % (NEUTRAL, NEUTRAL), lambda L: g(g(L) + K) + '|' + K))
+    pos.append(('nested:Concat-Either', "Concat(Either({s}, %r), %r)" % (NEUTRAL, NEUTRAL), lambda L: g(g(L) + '|' + K) + K))
+    pos.append(('nested:Enclose-Concat', "Enclose(Concat({s}, %r), %r)" % (NEUTRAL, NEUTRAL), lambda L: K + g(L) + K + K))
+    pos.append(('nested:Concat3', "Concat(Concat(Concat({s})))", lambda L: g(L)))
+    pos.append(('nested:Optional-Concat', "Optional(Concat({s}, %r))" % NEUTRAL, lambda L: g(g(L) + K) + '?'))
+    pos.append(('nested:FollowedBy-Either', "FollowedBy(Either(%r, {s}), Concat({s}))" % NEUTRAL, lambda L: g(K + '|' + g(L)) + '(?=' + L + ')'))
+    pos.append(('nested:Capture-Group', "Capture(Group({s}))", lambda L: '(' + L + ')'))
+    pos.append(('nested:Group-Capture', "Group(Capture({s}))", lambda L: g(L)))
+    pos.append(('nested:Capture-Groupi', "Capture(Group({s}, True))", lambda L: '((?i:' + L + '))'))
+    pos.append(('nested:Capture-Capture', "Capture(Capture({s}, 'y'), 'x')", lambda L: '(?P<x>' + L + ')'))
+    pos.append(('nested:Group-Group', "Group(Group({s}, True))", lambda L: g(L)))
+    pos.append(('nested:Capture-Concat', "Capture(Concat({s}, %r))" % NEUTRAL, lambda L: '(' + g(L) + K + ')'))
     pos.append(('Conditional:pre1', "Conditional('n', {s})", lambda L: '(?(n)' + g(L) + ')'))
     pos.append(('Conditional:pre1of2', "Conditional('n', {s}, %r)" % NEUTRAL, lambda L: '(?(n)' + g(L) + '|' + K + ')'))
     pos.append(('Conditional:pre2', "Conditional('n', %r, {s})" % NEUTRAL, lambda L: '(?(n)' + K + '|' + g(L) + ')'))
